@@ -2,6 +2,7 @@ SPECIFICATION Spec
 CONSTANTS
   SharedField = "none"
   MemoBound = TRUE
+  SampleKinds = FALSE
   MaxHist = 1000000
 VIEW AbstractView
 INVARIANT Memo
